@@ -171,3 +171,36 @@ NTH = register(Stream(
           "run with two different approximation oracles and must give the same value / error class; non-trivial = "
           "|n| >= 1 and the call did not fail for argument validation alone; distinct by (n, start)"),
     nontrivial=lambda o, obs: obs.startswith("v=")))
+
+# --------------------------------------------------------------------------------------------
+# cfg: configuration clamps and cache topologies
+# --------------------------------------------------------------------------------------------
+def gen_cfg(tier, r):
+    q = tier == "quick"
+    ops = []
+    edge_sizes = [0, 1, 1023, 1024, 4095, 4096, 4097, 16 << 10, 32 << 10, 48 << 10, 64 << 10, 100000, 256 << 10, 512 << 10,
+                  1 << 20, 1280 << 10, 2 << 20, 3 << 20, 8 << 20, 16 << 20, 1 << 30, (1 << 30) + 1, 1 << 40, (1 << 40) + 1,
+                  1 << 50, UMAX, UMAX - 1]
+    shares = [0, 1, 2, 3, 4, 6, 8, 12, 16, 64, 1 << 20, (1 << 20) + 1, UMAX]
+    for _ in range(60 if q else 900):
+        l1 = r.choice(edge_sizes + [r.randrange(0, 1 << 21)])
+        l2 = r.choice(edge_sizes + [r.randrange(0, 1 << 26)])
+        ops.append(("topology", f"gss {l1} {l2} {r.choice(shares)} {r.choice(shares)}"))
+    # realistic machines
+    for l1, l2, s2, s3 in [(32768, 262144, 2, 16), (49152, 1310720, 2, 24), (65536, 524288, 1, 1), (32768, 1048576, 1, 8),
+                           (131072, 4194304, 4, 0), (196608, 16777216, 8, 8), (65536, 2097152, 2, 0), (4096, 4096, 1, 1)]:
+        ops.append(("realistic", f"gss {l1} {l2} {s2} {s3}"))
+    for x in [-2**31, -1, 0, 1, 15, 16, 17, 31, 100, 1000, 8191, 8192, 8193, 10**6, 2**31 - 1] + [r.randrange(-100, 9000) for _ in range(10 if q else 100)]:
+        ops.append(("sieve-size", f"ss {x}"))
+    for x in [-2**31, -5, 0, 1, 2, 3, 15, 16, 17, 64, 10**6, 2**31 - 1] + [r.randrange(-10, 40) for _ in range(10 if q else 60)]:
+        ops.append(("threads", f"nt {x}"))
+    return ops
+
+CFG = register(Stream(
+    "cfg", gen_cfg,
+    rule=("cases = (a) cache descriptions (L1/L2 bytes, L2/L3 sharing incl. 0, garbage, huge) poked into the CpuInfo "
+          "singleton: get_sieve_size(), Erat's L1 size vs the Lean model, plus count_primes/count_twins/iterator results "
+          "under that topology vs the oracle; (b) set_sieve_size / PrimeSieve::setSieveSize and (c) set_num_threads / "
+          "ParallelSieve::setNumThreads for in- and out-of-range ints vs the model clamps; non-trivial = every case; "
+          "distinct by the operation"),
+    nontrivial=None))
